@@ -142,9 +142,11 @@ def r02_2(ctx):
     ctx.decide('R02.2', fi.qual, 'early return when ' + src(t), (taken == want) if taken is not None else None, early[0],
                'u at or beyond the last breakpoint kv[n-p-1] belongs to the last non-empty span (left-continuity at the right end)')
     ret = [s for s in early[0].body if isinstance(s, ast.Return)]
-    okr = bool(ret) and src(ret[0].value).replace(' ', '') == 'n-p-2'
-    ctx.decide('R02.2', fi.qual, 'early return value ' + (src(ret[0].value) if ret else '?'), okr, ret[0] if ret else early[0],
-               'index one below the tested knot = last span')
+    if ret:
+        ctx.formula('R02.2', fi.qual, ret[0].value, 'n - p - 2', ret[0], 'index one below the tested knot = last span',
+                    label='early return value ' + src(ret[0].value))
+    else:
+        ctx.undecided('R02.2', fi.qual, 'early return value', early[0], 'no return in the early branch')
     # bisection: kv[c] (<,=,>) u -> which bound moves
     wh = [s for s in fn.body if isinstance(s, ast.While)]
     if not wh:
@@ -234,8 +236,10 @@ def r02_3(ctx):
     # first active index = span - p at all sites
     fa = ctx.prog.func(B + '.KnotVector.first_active')
     r = guards.returns_of(fa.node)
-    ctx.decide('R02.3', fa.qual, src(r[0]) if r else 'return', bool(r) and src(r[0].value).replace(' ', '') == 'k-self.p', fa.node,
-               'first active function of span k is k - p')
+    if r:
+        ctx.formula('R02.3', fa.qual, r[0].value, 'k - self.p', fa.node, 'first active function of span k is k - p', label=src(r[0]))
+    else:
+        ctx.undecided('R02.3', fa.qual, 'return', fa.node, 'no return')
     n = 0
     for q in (B + '.collocation_info', B + '.collocation_derivs_info'):
         fi = ctx.prog.func(q)
